@@ -63,6 +63,17 @@ def switch_on(body, root_rx):
     return None
 
 
+def paired(body, a, others, e, bl, terminals):
+    """Order-insensitive pairing: no path that runs `a` and ends in success avoids all of
+    `others` (they may come before or after `a`; both run on the same delta)."""
+    cut = set(bl) | {c.bb for c in others}
+    if a.bb not in body.reachable(0, removed_edges=e, removed_blocks=cut):
+        return True         # every way to `a` already passed one of the others
+    if a.target is None:
+        return False
+    return not (terminals & body.reachable(a.target, removed_edges=e, removed_blocks=cut))
+
+
 def v1(prog, rep):
     body = prog.main_body(VU + "execute")
     rem = [c for c in body.calls if c.is_(AW + "remove_validator")]
@@ -85,14 +96,12 @@ def v1(prog, rep):
     for r in rem:
         rep.check(body.root(r.args[1]) == "self.action.verification_key", "V1", "remove-key",
                   f"removes {body.root(r.args[1])}", r.where())
-        good = bool(dec) and r.target is not None and not (
-            terminals & body.reachable(r.target, removed_edges=e,
-                                       removed_blocks=set(bl) | {c.bb for c in dec}))
+        good = bool(dec) and paired(body, r, dec, e, bl, terminals)
         rep.check(good, "V1", "remove=>count-1",
                   "a validator entry can be removed without the stored count being decremented",
                   r.where())
     for c in dec:
-        rep.check(any(body.must_pass_block(r.bb, c.bb) for r in rem), "V1", "count-1=>remove",
+        rep.check(bool(rem) and paired(body, c, rem, e, bl, terminals), "V1", "count-1=>remove",
                   "the stored count is decremented without a validator entry being removed", c.where())
     # removal only on the power == 0 edge
     pw = rel(body, "Eq", r"^self\.action\.power$", r"^const\(0\)$")
@@ -110,8 +119,14 @@ def v1(prog, rep):
                       "the stored count is incremented for a validator that already exists", c.where())
         for p in putv:
             starts = [v for (u, v) in fe]
-            good = bool(inc) and all(p.bb not in body.reachable(s, removed_blocks={c.bb for c in inc})
-                                     for s in starts)
+            # order-insensitive: from the "did not exist" edge no successful path runs the put
+            # without the increment (before or after it)
+            cutb = set(bl) | {c.bb for c in inc}
+            good = bool(inc) and all(
+                p.bb not in body.reachable(s, removed_edges=e, removed_blocks=cutb) or
+                (p.target is not None and not (
+                    terminals & body.reachable(p.target, removed_edges=e, removed_blocks=cutb)))
+                for s in starts)
             rep.check(good, "V1", "new-validator=>count+1",
                       "a new validator entry can be written without the stored count being "
                       "incremented", p.where())
